@@ -18,10 +18,10 @@ import (
 func init() {
 	core.Register(&core.Spec{
 		ID: "C08", Level: "fault_enumeration",
-		Rule: "the case list is the product statement kind {INSERT values, INSERT select, UPDATE, multi-table UPDATE, DELETE, REPLACE values, REPLACE select, CREATE TABLE AS, ALTER ADD DEFAULT, UPDATE with a user function} x failure kind {integer division by zero in row k, wrong row length in the k-th VALUES row, sub-query returning two rows from row k on, user function TRIGGERing ERROR at its k-th call, ambiguous joined update, unknown field, context cancellation at the k-th worker-hook hit} x k in {first, second, middle, last-1, last} x table state {never loaded, loaded by SELECT, loaded FOR UPDATE, already dirty, temporary table} x size {5, 200 rows with --cpu 4}, walked completely (invalid combinations are skipped). " +
+		Rule: "the case list is the product statement kind {INSERT values, INSERT select, UPDATE, multi-table UPDATE, DELETE, REPLACE values, REPLACE select, CREATE TABLE AS, ALTER ADD DEFAULT, UPDATE with a user function} x failure kind {integer division by zero in row k, wrong row length in the k-th VALUES row, sub-query returning two rows from row k on, user function TRIGGERing ERROR at its k-th call, ambiguous joined update, unknown field, context cancellation at the k-th worker-hook hit, context cancellation at the N-th poll of the context (first, second, middle and the last polls of the statement)} x k in {first, second, middle, last-1, last} x table state {never loaded, loaded by SELECT, loaded FOR UPDATE, already dirty, temporary table} x size {5, 200 rows with --cpu 4}, walked completely (invalid combinations are skipped). " +
 			"Each case runs in one real in-process transaction: snapshot (typed SELECT * of every table + directory listing), the failing statement (must return an error, else the case is trivial), SELECT * again == snapshot, no new file or control file, then COMMIT and reload from disk in a fresh session == snapshot (bytes identical when nothing had been changed before). non-trivial = the statement really failed; distinct = the combination.",
-		Quick: 3500, Thorough: 105000, FloorQuick: 500, FloorThorough: 15000, Exhaustive: true,
-		Assumptions: []string{"cancellation is injected through the worker hook (cancel the statement's context at the k-th hit); other failures are produced by the data", "thorough = the same product at thirty seeds (table contents differ)"},
+		Quick: 4000, Thorough: 120000, FloorQuick: 500, FloorThorough: 15000, Exhaustive: true,
+		Assumptions: []string{"cancellation is injected through the worker hook (cancel the statement's context at the k-th hit) and through a context that cancels itself at its N-th poll; other failures are produced by the data", "thorough = the same product at thirty seeds (table contents differ)"},
 		Setup:       func(w *core.Worker) { core.HermeticProcess(w.Work) },
 		Fn:          c08Case,
 	})
@@ -29,7 +29,7 @@ func init() {
 
 var (
 	c08Stmts  = []string{"insert-values", "insert-select", "update", "update-multi", "delete", "replace-values", "replace-select", "create-as", "alter-add", "update-udf"}
-	c08Fails  = []string{"divzero", "rowlen", "subquery2", "udf-trigger", "ambiguous", "unknown-field", "cancel"}
+	c08Fails  = []string{"divzero", "rowlen", "subquery2", "udf-trigger", "ambiguous", "unknown-field", "cancel", "cancel-poll"}
 	c08Ks     = []string{"first", "second", "middle", "last-1", "last"}
 	c08States = []string{"unloaded", "selected", "for-update", "dirty", "temp"}
 	c08Sizes  = []int{5, 200}
@@ -63,7 +63,11 @@ func c08Case(w *core.Worker, i int) {
 	if state == "temp" {
 		tn = "tmp"
 	}
-	// build the failing statement
+	// build the failing statement ("cancel-poll" runs the same statements as "cancel")
+	realFail := fail
+	if fail == "cancel-poll" {
+		fail = "cancel"
+	}
 	div := fmt.Sprintf("10 / (id - %d)", k)
 	sub := fmt.Sprintf("(SELECT u.id FROM u WHERE u.id <= %s.id - %d + 1)", tn, k)
 	udf := "f(id)"
@@ -130,6 +134,10 @@ func c08Case(w *core.Worker, i int) {
 			// whatever the transaction did to the table before stays
 			sql = []string{fmt.Sprintf("UPDATE %s SET c2 = 'x' FROM %s CROSS JOIN %s;", tn, tn, tn), fmt.Sprintf("DELETE %s FROM %s JOIN %s ON 1 = 1;", tn, tn, tn),
 				fmt.Sprintf("UPDATE %s SET c2 = 'x' FROM %s JOIN u %s ON 1 = 1;", tn, tn, tn), fmt.Sprintf("DELETE %s FROM u %s, %s;", tn, tn, tn)}[(k+size)%4]
+		case "cancel":
+			// two targets: the statement publishes one table after the other
+			sql = []string{fmt.Sprintf("UPDATE %s, u SET %s.c2 = 'both', u.c1 = 'both' FROM %s JOIN u ON %s.id = u.id;", tn, tn, tn, tn), fmt.Sprintf("DELETE %s, u FROM %s JOIN u ON %s.id = u.id;", tn, tn, tn),
+				fmt.Sprintf("UPDATE u, %s SET %s.c2 = 'both', u.c1 = 'both' FROM u JOIN %s ON %s.id = u.id;", tn, tn, tn, tn), fmt.Sprintf("DELETE u, %s FROM u JOIN %s ON %s.id = u.id;", tn, tn, tn)}[(map[string]int{"unloaded": 0, "selected": 1, "for-update": 2, "dirty": 3, "temp": 0}[state]+len(kname)+round)%4]
 		case "divzero":
 			sql = fmt.Sprintf("UPDATE %s SET %s.c1 = 10 / (%s.id - %d) FROM %s JOIN u ON %s.id >= u.id;", tn, tn, tn, k, tn, tn)
 			sql = fmt.Sprintf("UPDATE %s SET %s.c1 = 10 / (%s.id - %d) FROM %s JOIN one ON 1 = 1;", tn, tn, tn, k, tn)
@@ -260,12 +268,45 @@ func c08Case(w *core.Worker, i int) {
 		return m
 	}
 	viol := func(sig, what string) {
-		w.Violation(sig+":"+stmt+"/"+fail, fmt.Sprintf("[%s] %s: %s", combo, sql, what), c08Replay{Files: small(files), Setup: setup, Stmt: sql, Combo: combo, Detail: what})
+		w.Violation(sig+":"+stmt+"/"+realFail, fmt.Sprintf("[%s] %s: %s", combo, sql, what), c08Replay{Files: small(files), Setup: setup, Stmt: sql, Combo: combo, Detail: what})
 	}
 	before := snap()
 	lsBefore := core.TakeSnap(dir)
 	var res core.ExecResult
-	if fail == "cancel" {
+	if realFail == "cancel-poll" {
+		// the statement's context is cancelled at its N-th poll (Err / Done): every place at which csvq looks at the context is
+		// a place where the statement can end. The polls of an undisturbed execution are counted in a scratch session first.
+		total := int64(0)
+		{
+			d0 := core.FreshDir(w.Work, "dry")
+			core.WriteFiles(d0, files)
+			if s0, e0 := core.NewSess(core.SessOpts{Dir: d0, CPU: cpu, Quiet: true}); e0 == nil {
+				for _, q := range setup {
+					s0.Exec(q)
+				}
+				pc := newPollCtx(-1)
+				s0.ExecCtx(pc, sql)
+				total = atomic.LoadInt64(&pc.polls)
+				pc.cancel()
+				s0.Close()
+			}
+		}
+		target := map[string]int64{"first": 1, "second": 2, "middle": total / 2, "last-1": total - 1, "last": total}[kname]
+		if size > 100 {
+			// the large tables take the polls of the sequential tail one by one instead: publication happens there
+			target = total - int64(map[string]int{"first": 4, "second": 3, "middle": 2, "last-1": 1, "last": 0}[kname])
+		}
+		if target < 1 {
+			target = 1
+		}
+		pc := newPollCtx(target)
+		res = s.ExecCtx(pc, sql)
+		pc.cancel()
+		w.Count("context_polls_counted", total)
+		if w.Replay {
+			fmt.Printf("[%s] %s\n  polls of the undisturbed run: %d, cancelled at poll %d, polls made: %d, error: %v\n", combo, sql, total, target, atomic.LoadInt64(&pc.polls), res.Err)
+		}
+	} else if fail == "cancel" {
 		ctx, cancel := context.WithCancel(context.Background())
 		var hits int64
 		// where the statement is cancelled: the number of worker-hook hits of an undisturbed execution is counted in a
@@ -388,6 +429,35 @@ func c08Case(w *core.Worker, i int) {
 	if i%97 == 0 {
 		w.Sample(map[string]interface{}{"combination": combo, "setup": setup, "statement": sql, "error": truncateStr(res.Err.Error(), 150)})
 	}
-	w.Note("failing_combinations", stmt+"/"+fail+"/"+state)
+	w.Note("failing_combinations", stmt+"/"+realFail+"/"+state)
 	w.Case(combo+"#"+strconv.Itoa(round), true)
+}
+
+// pollCtx is a context that is cancelled at its N-th poll.
+type pollCtx struct {
+	context.Context
+	cancel context.CancelFunc
+	polls  int64
+	target int64
+}
+
+func newPollCtx(target int64) *pollCtx {
+	c, cancel := context.WithCancel(context.Background())
+	return &pollCtx{Context: c, cancel: cancel, target: target}
+}
+
+func (p *pollCtx) tick() {
+	if atomic.AddInt64(&p.polls, 1) == p.target {
+		p.cancel()
+	}
+}
+
+func (p *pollCtx) Err() error {
+	p.tick()
+	return p.Context.Err()
+}
+
+func (p *pollCtx) Done() <-chan struct{} {
+	p.tick()
+	return p.Context.Done()
 }
